@@ -979,6 +979,33 @@ fn hash_attachment_value(hasher: &mut blake3::Hasher, value: &AttachmentValue) {
     }
 }
 
+/// Verification hooks (feature `echo_verif`): the columnar accumulator's independent state root.
+#[cfg(feature = "echo_verif")]
+pub mod verif {
+    use super::{Hash, NodeKey, SnapshotAccumulator, WarpOp, WarpState};
+
+    /// State root (and WSC bytes) computed by the accumulator for `state` as-is.
+    #[must_use]
+    pub fn accumulator_root(state: &WarpState, root: &NodeKey) -> (Hash, Vec<u8>) {
+        let acc = SnapshotAccumulator::from_warp_state(state);
+        let out = acc.build(root, [0u8; 32], 0);
+        (out.state_root, out.wsc_bytes)
+    }
+
+    /// State root (and WSC bytes) computed by the accumulator after applying `ops` to `state`.
+    #[must_use]
+    pub fn accumulator_root_after(
+        state: &WarpState,
+        ops: Vec<WarpOp>,
+        root: &NodeKey,
+    ) -> (Hash, Vec<u8>) {
+        let mut acc = SnapshotAccumulator::from_warp_state(state);
+        acc.apply_ops(ops);
+        let out = acc.build(root, [0u8; 32], 0);
+        (out.state_root, out.wsc_bytes)
+    }
+}
+
 #[cfg(test)]
 #[allow(clippy::expect_used, clippy::unwrap_used)]
 mod tests {
